@@ -193,7 +193,9 @@ var (
 		"::ffff:10.0.0.1", "::", "::1"}
 	v18Zones    = []string{"", "", "eth0", "wlan0", "7"}
 	v18Prefixes = []string{"2001:db8:1::/64", "2001:db8:2::/64", "::/0", "2001:db8:1::/48", "fd00::1/128", "2001:db8:1::/127",
-		"2001:db8:1:0:8000::/65", "fd00::/8", "fc00::/7", "8000::/1"}
+		"2001:db8:1:0:8000::/65", "fd00::/8", "fc00::/7", "8000::/1",
+		// prefixes a sane router would not advertise but a monitor must still describe exactly
+		"fe80::/64", "fe80::/10", "fe80:0:0:1::/64", "ff02::/16", "::1/128"}
 )
 
 func v18Lifetime(r *verifh.Rand) time.Duration {
@@ -370,6 +372,47 @@ func TestVerifC18(t *testing.T) {
 		r := verifh.NewRand(verifh.Seed(), id)
 		v18Case(t, out, id, r)
 	}
+	v18Volume(out)
+}
+
+// v18Volume: thousands of distinct senders, routers and prefixes through one Monitor (a large wireless network, or
+// randomised addresses over weeks): every message is counted and every router / prefix described, the 5000th
+// like the first.  Assertion on the final metrics only (per-message deltas are the business of v18Case).
+func v18Volume(out *verifh.Out) {
+	if !out.Wants("c18-volume") {
+		return
+	}
+	const n = 5000
+	mem := metricslite.NewMemory()
+	mm := NewMetrics(mem, "verif", time.Time{}, nil, nil)
+	mon := NewMonitor(NewContext(nil, mm, nil), "eth0", nil, nil, false)
+	t0 := time.Unix(1_700_000_000, 0)
+	mon.now = func() time.Time { return t0 }
+	for j := 0; j < n; j++ {
+		host := netip.AddrFrom16([16]byte{0xfe, 0x80, 8: 2, 13: byte(j >> 16), 14: byte(j >> 8), 15: byte(j)})
+		if j%2 == 0 {
+			mon.handle(&ndp.RouterSolicitation{}, host.String())
+			continue
+		}
+		pfx := netip.AddrFrom16([16]byte{0x20, 0x01, 0x0d, 0xb8, 4: byte(j >> 8), 5: byte(j)})
+		mon.handle(&ndp.RouterAdvertisement{RouterLifetime: 1800 * time.Second, Options: []ndp.Option{
+			&ndp.PrefixInformation{PrefixLength: 64, Prefix: pfx, ValidLifetime: time.Hour, PreferredLifetime: time.Minute}}}, host.String())
+	}
+	snap := v18Snapshot(mem)
+	counts := map[string]int{}
+	for k := range snap {
+		counts[k[:strings.IndexAny(k+"|", "|")]]++
+	}
+	var viol []string
+	want := map[string]int{"corerad_monitor_messages_received_total": n, "corerad_monitor_default_route_expiration_timestamp_seconds": n / 2,
+		"corerad_monitor_prefix_valid_expiration_timestamp_seconds": n / 2}
+	for name, w := range want {
+		if counts[name] != w {
+			viol = append(viol, fmt.Sprintf("%s has %d label sets after %d messages from distinct senders, want %d", name, counts[name], n, w))
+		}
+	}
+	out.Emit(verifh.Case{ID: "c18-volume", Input: map[string]any{"kind": "volume", "senders": n}, Observed: counts,
+		Tags: []string{"stream:volume"}, ImplViolation: strings.Join(viol, "; ")})
 }
 
 func v18Case(t *testing.T, out *verifh.Out, id string, r *verifh.Rand) {
